@@ -71,13 +71,10 @@ type Sim struct {
 
 var cur atomic.Pointer[Sim]
 
-// startupPoints are the yield points of the sync loop before the start-up
-// phase (initial listing, start-up main-to-shadow pass) is over.
-var startupPoints = map[string]bool{
-	"syncloop:start": true, "bucket:list": true, "bucket:list:lat": true,
-	"sync:initial-listing-retry": true, "sync:after-initial-listing": true,
-	"sync:before-startup-shadow": true,
-}
+// steadyPoints are the first yield points of the sync loop after its
+// start-up phase: reaching one makes the incarnation "steady". (A positive
+// list: the start-up phase also passes generic points such as sleep:wake.)
+var steadyPoints = map[string]bool{"sync:after-startup-shadow": true, "sync:loop-top": true}
 
 var traceOn = os.Getenv("LSSIM_TRACE") != ""
 
@@ -283,7 +280,7 @@ func (s *Sim) park(t *Task, point string) {
 		s.markExited(t)
 		runtime.Goexit()
 	}
-	if t.Role == "syncloop" && t.Node != nil && !startupPoints[point] {
+	if t.Role == "syncloop" && t.Node != nil && steadyPoints[point] {
 		t.Node.steadyInc = t.Inc
 	}
 	raceOff()
